@@ -10,7 +10,6 @@ import (
 	"container/list"
 	"fmt"
 	"os"
-	"regexp"
 	"strings"
 	"sync"
 
@@ -134,9 +133,6 @@ func c18Step(o *c18Objects, s Req) (string, error) {
 	return out.String(), err
 }
 
-// error messages that print the package-level envsubstOpType.Type (known finding): compared with the token masked
-var gotType = regexp.MustCompile(`got ENVSUBST[A-Z_]* instead`)
-
 func errString(e error) string {
 	if e == nil {
 		return ""
@@ -201,7 +197,7 @@ func init() {
 				}
 			}()
 			out, err := c18Step(newC18Objects(), s)
-			return res{out, gotType.ReplaceAllString(errString(err), "got <TYPE> instead")}
+			return res{out, errString(err)}
 		}
 		soloA, soloB := runOne(a), runOne(b)
 		mism := 0
